@@ -156,18 +156,44 @@ def make_inherit(fam, kind):
     class RedecoratedAttr(AttrDeclared):
         tag: str = "t"
 
+    @spec_class(bootstrap=bootstrap)
+    class Kid:
+        vals: _L[int] = []
+
+    @spec_class(bootstrap=bootstrap)
+    class BaseN:
+        x: int = 1
+        ys: _L[int] = [1, 2]
+        payload: _L[int] = []
+        kid: Kid = Kid()
+
+    class PlainNested(BaseN):  # plain subclass overriding a default that is a nested spec INSTANCE (not a collection)
+        kid = Kid(vals=[7])
+
+    @spec_class(bootstrap=bootstrap)
+    class SpecNested(BaseN):  # the same through a re-decorated subclass (no re-annotation)
+        kid = Kid(vals=[8])
+        tag: str = "t"
+
     from vf.snapshot import register
 
+    register(Kid, ["vals"])
+    register(BaseN, ["x", "ys", "payload", "kid"])
+    register(SpecNested, ["x", "ys", "payload", "kid", "tag"])
     register(Base, ["x", "ys", "payload"])
     register(Derived, ["x", "ys", "payload", "tag"])
     register(AttrDeclared, ["x", "ys", "payload"])
     register(DncParent, ["x", "ys", "payload"])
     register(Redecorated, ["x", "ys", "payload", "tag"])
     register(RedecoratedAttr, ["x", "ys", "payload", "tag"])
-    CLS = {"plain-override": PlainSub, "dnc-inherited": Derived, "dnc-attr-declared": AttrDeclared, "dnc-redecorated": Redecorated, "dnc-attr-redecorated": RedecoratedAttr}
+    CLS = {"plain-override-nested": PlainNested, "spec-override-nested": SpecNested, "plain-override": PlainSub, "dnc-inherited": Derived, "dnc-attr-declared": AttrDeclared, "dnc-redecorated": Redecorated, "dnc-attr-redecorated": RedecoratedAttr}
 
     def h(v: int, pre: int, op: int, side: bool, mut: int) -> str:
         cls = CLS[kind]
+        if kind.endswith("-nested"):
+            # class-level state outlives a path of the exploration: put the declared default back (in place, it is the
+            # object the class and its Attr hold) so that a path only ever reports damage it did itself
+            cls.__dict__["kid"].__dict__["vals"] = [7] if kind == "plain-override-nested" else [8]
         o = cls(x=v)
         if kind.startswith("dnc-"):
             o.payload.append(v)
@@ -178,7 +204,10 @@ def make_inherit(fam, kind):
             o.reset(_inplace=True)
         elif prename == "del_ys":
             del o.ys
-        opname = pick(["reset_ys", "reset", "with_x", "deepcopy", "update_x", "with_ys"], op)
+        opname = pick(["reset_ys", "reset", "with_x", "deepcopy", "update_x", "with_ys", "reset_kid"], op)
+        nested = kind.endswith("-nested")
+        if opname == "reset_kid":
+            assume(nested)
         tag = f"C02/inherit-{kind}/{opname}"
         if opname == "reset_ys":
             r = o.reset_ys()
@@ -190,6 +219,8 @@ def make_inherit(fam, kind):
             r = o.update(x=v + 1)
         elif opname == "with_ys":
             r = o.with_ys([5, v])
+        elif opname == "reset_kid":
+            r = o.reset_kid()
         else:
             r = copy.deepcopy(o)
         check(r is not o, "distinct instance", f"{tag}/same-instance")
@@ -202,8 +233,13 @@ def make_inherit(fam, kind):
         check(not shared, "the result shares no mutable object with the instance it was derived from", f"{tag}/shared-mutable", lambda: f"pre={prename}: shared {shared!r}")
         a_side, b_side = (r, o) if side else (o, r)
         s_b = snap(b_side)
-        name, fn = pick([("ys.append", lambda x: x.ys.append(99)), ("x=", lambda x: setattr(x, "x", 777))], mut)
+        name, fn = pick([("ys.append", lambda x: x.ys.append(99)), ("x=", lambda x: setattr(x, "x", 777)), ("kid.vals.append", lambda x: x.kid.vals.append(55))], mut)
+        if name == "kid.vals.append":
+            assume(nested)
         fn(a_side)
+        if nested:
+            fresh = cls()
+            check(fresh.kid.vals == ([7] if kind == "plain-override-nested" else [8]), "(C08 overlap) the class-level default is not reachable from a derived copy", f"{tag}/class-default-changed/{name}", lambda: f"pre={prename}: a new instance now has kid.vals == {fresh.kid.vals!r}")
         check(same(snap(b_side), s_b, ids=False), "no later in-place change to either instance is visible through the other", f"{tag}/followup-visible/{name}", lambda: f"pre={prename}")
         return "ok"
 
@@ -235,9 +271,9 @@ def obligations(tier):
         for opname in NOARG_OPS:
             for attr in ("inner", "inner2"):
                 obs.append(Ob(f"C02.{fam}.K3.{opname}.{attr}", make(fam, "K3", opname, attr), _warm(), f"K3 ({fam}) nested values: degenerate call form {opname} on {attr} (re-assigns the stored value; nothing is handed in); follow-up mutation on result or receiver", expect=set(), timeout=T))
-        KINDS = {"plain-override": "plain subclass overriding a mutable default", "dnc-inherited": "spec subclass declaring do_not_copy for an inherited attribute", "dnc-attr-declared": "attribute declared Attr(do_not_copy=True)", "dnc-redecorated": "re-decorated subclass (no do_not_copy argument) of a class declaring do_not_copy=[attr]", "dnc-attr-redecorated": "re-decorated subclass of a class with an Attr(do_not_copy=True) attribute"}
+        KINDS = {"plain-override-nested": "plain subclass overriding a default that is a nested spec instance", "spec-override-nested": "re-decorated subclass overriding a default that is a nested spec instance", "plain-override": "plain subclass overriding a mutable default", "dnc-inherited": "spec subclass declaring do_not_copy for an inherited attribute", "dnc-attr-declared": "attribute declared Attr(do_not_copy=True)", "dnc-redecorated": "re-decorated subclass (no do_not_copy argument) of a class declaring do_not_copy=[attr]", "dnc-attr-redecorated": "re-decorated subclass of a class with an Attr(do_not_copy=True) attribute"}
         for kind in KINDS:
-            obs.append(Ob(f"C02.{fam}.inherit.{kind}", make_inherit(fam, kind), [(3, pre, op, sd, m) for pre in range(4) for op in range(6) for sd in (False, True) for m in (0, 1)], f"{KINDS[kind]} ({fam}); one preparatory in-place reset/del (symbolic, or none), then reset_ys / reset / with_x / deepcopy / update / with_ys, then a follow-up mutation on either side", expect={"ok"}, timeout=T))
+            obs.append(Ob(f"C02.{fam}.inherit.{kind}", make_inherit(fam, kind), [(3, pre, op, sd, m) for pre in range(4) for op in range(7) for sd in (False, True) for m in (0, 1, 2)], f"{KINDS[kind]} ({fam}); one preparatory in-place reset/del (symbolic, or none), then reset_ys / reset / with_x / deepcopy / update / with_ys, then a follow-up mutation on either side", expect={"ok"}, timeout=T))
         for opname in ["deepcopy"] + [x for x in K5_OPS if not x.startswith("setattr")]:
             obs.append(Ob(f"C02.{fam}.K5.{opname}", make(fam, "K5", opname), _warm(), "K5 with a do_not_copy attribute `big`: carried by identity, everything else unshared", expect=set(), timeout=T))
     return obs
